@@ -282,6 +282,10 @@ theorem cst_lexM_modulo : (c : Cst) → c.lexM.filter keep = (c.lex.map normLex)
     simp only [Cst.lexM, Cst.lex, List.map_append, List.map_cons, List.filter_append, List.filter_cons, cst_lexM_modulo e,
       cst_lexM_modulo d, map_normLex_lexGC, hat]
     simp [normLex, keep, isBindDelim]
+  | .lam n c1 _ c2 _ b => by
+    simp only [Cst.lexM, Cst.lex, List.map_append, List.map_cons, List.filter_append, List.filter_cons, cst_lexM_modulo b,
+      map_normLex_lexGC]
+    simp [normLex, keep, isBindDelim]
 theorem items_lexM_modulo : (its : Items) → its.lexM.filter keep = (its.lex.map normLex).filter keep
   | .nil => rfl
   | .cmt _ t rest => by
